@@ -54,7 +54,7 @@ func canonReason(s string) string {
 
 // compile builds the pack; on failure it returns, per case index, the first error message
 // located inside that case's lines (attr), and a general message.
-func (r *runner) compile(src string, lines [][2]int, real bool) (b run.Built, dir string, attr map[int]string, msg string) {
+func (r *runner) compile(src string, lines [][][2]int, real bool) (b run.Built, dir string, attr map[int]string, msg string) {
 	r.mu.Lock()
 	r.programs++
 	r.mu.Unlock()
@@ -71,10 +71,12 @@ func (r *runner) compile(src string, lines [][2]int, real bool) (b run.Built, di
 			if msg == "" {
 				msg = canonReason("error: " + d.Msg)
 			}
-			for i, lr := range lines {
-				if d.Line >= lr[0] && d.Line <= lr[1] {
-					if _, ok := attr[i]; !ok {
-						attr[i] = canonReason("error: " + d.Msg)
+			for i, lrs := range lines {
+				for _, lr := range lrs {
+					if d.Line >= lr[0] && d.Line <= lr[1] {
+						if _, ok := attr[i]; !ok {
+							attr[i] = canonReason("error: " + d.Msg)
+						}
 					}
 				}
 			}
@@ -108,10 +110,12 @@ func (r *runner) compile(src string, lines [][2]int, real bool) (b run.Built, di
 		}
 		if m := reLoc.FindStringSubmatch(t); m != nil && strings.HasPrefix(t, "-->") {
 			n, _ := strconv.Atoi(m[1])
-			for i, lr := range lines {
-				if n >= lr[0] && n <= lr[1] {
-					if _, ok := attr[i]; !ok {
-						attr[i] = canonReason(lastErr)
+			for i, lrs := range lines {
+				for _, lr := range lrs {
+					if n >= lr[0] && n <= lr[1] {
+						if _, ok := attr[i]; !ok {
+							attr[i] = canonReason(lastErr)
+						}
 					}
 				}
 			}
@@ -181,7 +185,7 @@ func (r *runner) observe(cases []*bcase, idx []int, res []obs, real bool) {
 	for j, i := range idx {
 		sub[j] = cases[i]
 	}
-	var lines [][2]int
+	var lines [][][2]int
 	src := packSource(sub, &lines)
 	if d := os.Getenv("VERIF_C18_DUMP"); d != "" {
 		r.mu.Lock()
@@ -330,14 +334,26 @@ func runTarget(c *vl.Ctx, r *runner, cases []*bcase, packSize, confirmCap int) t
 		order[i] = i
 	}
 	cls := func(k *bcase) string {
+		if k.group != "" {
+			// grouped cases stay next to each other (generation order), simplest types first
+			return fmt.Sprintf("%d/grouped/%v/%s", k.t.depth(), k.t.hasOpt(), k.t.rootName())
+		}
 		return fmt.Sprintf("%d/%s/%s/%v/%s", k.t.depth(), k.phase, k.skind, k.t.hasOpt(), k.t.rootName())
 	}
 	sort.SliceStable(order, func(a, b int) bool { return cls(cases[order[a]]) < cls(cases[order[b]]) })
 	var packs [][]int
 	for i := 0; i < len(order); {
 		j, sz := i, 0
-		for j < len(order) && (j == i || sz+cases[order[j]].size() <= packSize) && cls(cases[order[j]]) == cls(cases[order[i]]) {
-			sz += cases[order[j]].size()
+		for j < len(order) && cls(cases[order[j]]) == cls(cases[order[i]]) {
+			k := cases[order[j]]
+			add := k.size()
+			if j > i && k.group != "" && cases[order[j-1]].group == k.group {
+				add = strings.Count(k.body, "\n") + 4 // declarations are shared
+			}
+			if j > i && sz+add > packSize {
+				break
+			}
+			sz += add
 			j++
 		}
 		packs = append(packs, order[i:j])
